@@ -6,6 +6,8 @@ use crate::rng::Rng;
 use geo::algorithm::coordinate_position::coord_pos_relative_to_ring;
 use geo::algorithm::kernels::Kernel;
 use geo::{Contains, GeoNum, Intersects};
+#[allow(unused_imports)]
+use geo::algorithm::coordinate_position::CoordinatePosition;
 use geo_types::*;
 
 fn next_after(v: f64, up: bool) -> f64 {
@@ -106,7 +108,59 @@ fn gen_ring_a(rng: &mut Rng) -> (Vec<Coord<f64>>, Coord<f64>) {
     (r, p)
 }
 
+/// A rectangle shell with several pairwise disjoint holes whose bounding boxes overlap (a big triangular hole and a small
+/// square hole in the free corner of its box, per cell, in random order), at a random power-of-two scale and offset; the
+/// query point is a vertex / edge point / interior point of some ring, nudged by 0..2 ulps.
+fn gen_poly(rng: &mut Rng) -> (Polygon<f64>, Coord<f64>) {
+    let (nx, ny) = (rng.range(1, 3), rng.range(1, 2));
+    let s = 2f64.powi(rng.range(0, 40) as i32);
+    let off = rng.range(-5, 5) as f64 * s;
+    let c = |x: i64, y: i64| Coord { x: x as f64 * s + off, y: y as f64 * s - off };
+    let shell = vec![c(0, 0), c(6 * nx, 0), c(6 * nx, 6 * ny), c(0, 6 * ny), c(0, 0)];
+    let mut holes: Vec<Vec<Coord<f64>>> = vec![];
+    for i in 0..nx {
+        for j in 0..ny {
+            let (fx, fy) = (rng.chance(1, 2), rng.chance(1, 2));
+            let loc = |x: i64, y: i64| c(6 * i + if fx { 6 - x } else { x }, 6 * j + if fy { 6 - y } else { y });
+            let tri = vec![loc(1, 1), loc(5, 1), loc(1, 5), loc(1, 1)];
+            let sq = vec![loc(4, 4), loc(5, 4), loc(5, 5), loc(4, 5), loc(4, 4)];
+            match rng.below(4) {
+                0 => holes.push(tri),
+                1 => { holes.push(sq); holes.push(tri); }
+                _ => { holes.push(tri); holes.push(sq); }
+            }
+        }
+    }
+    if rng.chance(1, 3) {
+        let i = rng.below(holes.len() as u64) as usize;
+        let j = rng.below(holes.len() as u64) as usize;
+        holes.swap(i, j);
+    }
+    let rings: Vec<&Vec<Coord<f64>>> = std::iter::once(&shell).chain(holes.iter()).collect();
+    let r = rings[rng.below(rings.len() as u64) as usize];
+    let i = rng.below(r.len() as u64 - 1) as usize;
+    let (a, b) = (r[i], r[i + 1]);
+    let t = *rng.pick(&[0.0, 0.25, 0.5, 0.75, 1.0]);
+    let m = Coord { x: a.x + (b.x - a.x) * t, y: a.y + (b.y - a.y) * t };
+    let p = match rng.below(5) {
+        0 => m,
+        1 | 2 => Coord { x: nudge(rng, m.x), y: nudge(rng, m.y) },
+        3 => {
+            // strictly inside that ring (its centroid) — inside a hole means outside the polygon
+            let n = (r.len() - 1) as f64;
+            Coord { x: r[..r.len() - 1].iter().map(|c| c.x).sum::<f64>() / n, y: r[..r.len() - 1].iter().map(|c| c.y).sum::<f64>() / n }
+        }
+        _ => c(rng.range(0, 6 * nx), rng.range(0, 6 * ny)),
+    };
+    let poly = Polygon::new(LineString(shell.clone()), holes.iter().map(|h| LineString(h.clone())).collect());
+    (poly, p)
+}
+
 pub fn gen(rng: &mut Rng, _index: u64) -> String {
+    if rng.chance(1, 12) {
+        let (poly, p) = gen_poly(rng);
+        return format!("C03.poly {} {}", proto::geom(&Geometry::Polygon(poly)), proto::coord(p));
+    }
     if rng.chance(1, 8) {
         // the same predicates at single precision (f32 operands are widened exactly by the robust kernel)
         let (a, p, b) = near_collinear_f32(rng);
@@ -298,6 +352,19 @@ fn near_collinear_int(rng: &mut Rng, bound: i64) -> (Coord<f64>, Coord<f64>, Coo
 
 pub fn eval(op: &str, t: &mut Toks) -> R<String> {
     match op {
+        "C03.poly" => {
+            use geo::coordinate_position::CoordinatePosition;
+            let g = t.geom()?;
+            let p = t.coord()?;
+            let poly = match &g { Geometry::Polygon(pg) => pg.clone(), _ => return Err("C03.poly wants PG".into()) };
+            // the entry point rotates: the concrete type, the Geometry enum, a one-member MultiPolygon
+            let pos = match (p.x.to_bits() ^ p.y.to_bits().rotate_left(21)) % 3 {
+                0 => poly.coordinate_position(&p),
+                1 => g.coordinate_position(&p),
+                _ => MultiPolygon(vec![poly.clone()]).coordinate_position(&p),
+            };
+            Ok(format!("{} {} {} {}", pos_str(pos), poly.contains(&p), poly.intersects(&p), Point(p).intersects(&poly)))
+        }
         "C03.segi64" => eval_int::<i64>("seg", 1073741824.0, t),
         "C03.ringi64" => eval_int::<i64>("ring", 1073741824.0, t),
         "C03.trii64" => eval_int::<i64>("tri", 1073741824.0, t),
